@@ -347,10 +347,7 @@ theorem exec_pres (fuel : Nat) : ∀ (c : Core) (sp : List Pc) (k : Kont), rwVal
       split
       · rename_i w _
         obtain ⟨hc, _⟩ := closeConn_pres c w
-        split
-        · have := ih (closeConn c w) sp (.discTail (some w) r) (hc.rwv hv)
-          exact ⟨hc.trans this.1, this.2⟩
-        · exact ⟨hc, trivial⟩
+        exact ⟨hc, trivial⟩
       · exact ih _ _ _ hv
     | discTail w r =>
       simp only [exec]
